@@ -107,6 +107,13 @@ def build(ctx, conv, shape, *, bounds='none', as_coords=True, nan_cells=None, da
             kw = dict(lat_bounds=latb, lon_bounds=lonb)
             ylo, yhi = list(latb[:, 0]), list(latb[:, 1])
             xlo, xhi = list(lonb[:, 0]), list(lonb[:, 1])
+        elif bounds == 'misdim':
+            # bounds stored as (bnds, n): not a valid CF bounds layout for this coordinate -> ignored, bounds derived
+            latb = coord_array(ctx, 'latb', (2, ny), nominal=numpy.stack([nlat - 0.375, nlat + 0.5], axis=0))
+            lonb = coord_array(ctx, 'lonb', (2, nx), nominal=numpy.stack([nlon - 0.75, nlon + 0.875], axis=0))
+            kw = dict(lat_bounds=latb, lon_bounds=lonb, bounds_dims=(('bnds', dims[0] if dims else 'y'), ('bnds', dims[1] if dims else 'x')))
+            ylo, yhi = _mid1d(list(lat))
+            xlo, xhi = _mid1d(list(lon))
         else:
             ylo, yhi = _mid1d(list(lat))
             xlo, xhi = _mid1d(list(lon))
@@ -147,6 +154,27 @@ def build(ctx, conv, shape, *, bounds='none', as_coords=True, nan_cells=None, da
             kw = dict(lat_bounds=latb, lon_bounds=lonb)
             P.corners = lambda n: [(lonb[n // nx, n % nx, c], latb[n // nx, n % nx, c]) for c in range(4)]
             P.hole = lambda n: bflag[n // nx, n % nx]
+        elif bounds == 'misdim':
+            # bounds stored with the horizontal dimensions transposed relative to the coordinates: (x, y, 4).
+            # That is not the layout of this grid, so the variable is ignored (with a warning) and bounds are derived.
+            tb_lat = numpy.empty((nx, ny, 4), dtype=lat.dtype)
+            tb_lon = numpy.empty((nx, ny, 4), dtype=lat.dtype)
+            for i in range(nx):
+                for j in range(ny):
+                    for c in range(4):
+                        a, b = off[c]
+                        tb_lat[i, j, c] = ctx.real(f'latb{i}_{j}_{c}', hint=float(nlat[j, i] + a * 0.125 + b * 0.5))
+                        tb_lon[i, j, c] = ctx.real(f'lonb{i}_{j}_{c}', hint=float(nlon[j, i] + a * 1.0 - b * 0.25))
+            yd, xd = (dims or (('y', 'x') if conv == 'cf2d' else ('j', 'i')))
+            kw = dict(lat_bounds=tb_lat, lon_bounds=tb_lon, bounds_dims=(xd, yd, 'four'))
+            gx, gy, ghole = _derive_2d(ctx, lon, lat, cflag)
+            P.corners = lambda n: [(gx[n // nx, n % nx], gy[n // nx, n % nx]),
+                                   (gx[n // nx, n % nx + 1], gy[n // nx, n % nx + 1]),
+                                   (gx[n // nx + 1, n % nx + 1], gy[n // nx + 1, n % nx + 1]),
+                                   (gx[n // nx + 1, n % nx], gy[n // nx + 1, n % nx])]
+            P.hole = lambda n: Or(cflag[n // nx, n % nx],
+                                  ghole[n // nx, n % nx], ghole[n // nx, n % nx + 1],
+                                  ghole[n // nx + 1, n % nx + 1], ghole[n // nx + 1, n % nx])
         else:
             gx, gy, ghole = _derive_2d(ctx, lon, lat, cflag)
             P.corners = lambda n: [(gx[n // nx, n % nx], gy[n // nx, n % nx]),
